@@ -20,6 +20,7 @@ check: 0 False, 1 True, 2 argument omitted (default True).
 content / ts encoding: plain JSON; a float is {"$f": float.hex()}.
 """
 import collections
+import itertools
 import json
 
 from hypothesis import strategies as st
@@ -523,7 +524,81 @@ def enumerate_cases(tier):
         for pos in (0, 1, 2):
             for nested in (False, True):
                 cases.append({"kind": "raising-listener", "timed": timed, "pos": pos, "nested": nested})
+    # two listener objects that compare equal (a value class such as a dataclass): all short histories
+    n = 4 if tier == "quick" else 5
+    for seq in itertools.product(range(len(_EQ_OPS)), repeat=n):
+        cases.append({"kind": "equal-listeners", "ops": list(seq)})
     return cases
+
+
+_EQ_OPS = [("add", "a", 0), ("add", "b", 0), ("add", "b", 1), ("rem", "a", 0), ("rem", "b", 0),
+           ("rall", "a", None), ("rall", "b", None)]
+
+
+def _run_equal_listeners(case, out):
+    """Listeners a and b are distinct objects that compare equal.  Whether the producer takes them for one
+    subscriber (equality: the second subscription is a duplicate, unsubscribing either removes the subscription)
+    or for two (identity) - it has to do so in subscribing AND unsubscribing; whoever is subscribed, and only they,
+    are notified, in subscription order.  Both readings are computed; the producer must follow one of them."""
+    pubsub, types, _m = _env()
+    Ts = (types[0], types[1])
+    prod = pubsub.EventProducer()
+    got = []
+
+    class V(pubsub.EventListener):
+        def __init__(self, name, key):
+            self.name, self.key = name, key
+
+        def __eq__(self, other):
+            return isinstance(other, V) and other.key == self.key
+
+        def __hash__(self):
+            return hash(self.key)
+
+        def notify(self, event):
+            got.append(self.name)
+    objs = {"a": V("a", 7), "b": V("b", 7)}
+    models = {"equality": ([[], []], lambda x, y: True), "identity": ([[], []], lambda x, y: x == y)}
+    alive = set(models)
+    both_offered = set()
+    for step, oi in enumerate(case["ops"]):
+        k, who, t = _EQ_OPS[oi]
+        if k == "add":
+            both_offered.add((who, t))
+            e = _guard(lambda: prod.add_listener(Ts[t], objs[who]))
+        elif k == "rem":
+            e = _guard(lambda: prod.remove_listener(Ts[t], objs[who]))
+        else:
+            e = _guard(lambda: prod.remove_all_listeners(listener=objs[who]))
+        if e is not None:
+            out.fail("unexpected-exception:equal-listeners:" + type(e).__name__, {"step": step, "op": [k, who, t]})
+            return
+        for name, (subs, same) in models.items():
+            for tt in ((t,) if t is not None else (0, 1)):
+                hit = [x for x in subs[tt] if same(x, who)]
+                if k == "add":
+                    if not hit:
+                        subs[tt].append(who)
+                elif hit:
+                    subs[tt].remove(hit[0])
+        seen = []
+        for tt in (0, 1):
+            del got[:]
+            e = _guard(lambda: prod.fire(Ts[tt], None))
+            if e is not None:
+                out.fail("delivery:raises", {"step": step, "exc": repr(e)})
+                return
+            seen.append(list(got))
+        alive = {m for m in alive if models[m][0] == seen}
+        if not alive:
+            out.fail("delivery:equal-listeners-inconsistent",
+                     {"ops": [list(_EQ_OPS[i]) for i in case["ops"][:step + 1]], "notified": seen,
+                      "if_equal_listeners_are_one_subscriber": models["equality"][0],
+                      "if_they_are_two": models["identity"][0]})
+            return
+    out.label("kind=equal-listeners")
+    out.label("equal-listeners-treated-by-" + "/".join(sorted(alive)))
+    out.nontrivial = ("a", 0) in both_offered and ("b", 0) in both_offered
 
 
 def _run_raising_listener(case, out):
@@ -713,6 +788,9 @@ def run_case(case):
         return out
     if case.get("kind") == "raising-listener":
         _run_raising_listener(case, out)
+        return out
+    if case.get("kind") == "equal-listeners":
+        _run_equal_listeners(case, out)
         return out
     if case.get("kind") == "payload-reuse":
         _run_payload_reuse(case, out)
